@@ -214,10 +214,15 @@ func (la *LeapArray) currentBucketOfTime(now uint64, bg BucketGenerator) (*Bucke
 			// reset BucketWrap
 			vhook.Yield("la.trylock")
 			if la.updateLock.TryLock() {
-				old = bg.ResetBucketTo(old, bucketStart)
-				vhook.Yield("la.unlock")
+				// Re-check under the lock: another goroutine may have refreshed (and written to)
+				// this bucket since its start time was examined above.
+				if bucketStart > atomic.LoadUint64(&old.BucketStart) {
+					old = bg.ResetBucketTo(old, bucketStart)
+					vhook.Yield("la.unlock")
+					la.updateLock.Unlock()
+					return old, nil
+				}
 				la.updateLock.Unlock()
-				return old, nil
 			} else {
 				runtime.Gosched()
 			}
